@@ -117,6 +117,7 @@ func runC09(x *Ctx) {
 	x.C.Rule("C09.T2", "recursion descends into strict sub-terms", 5)
 	x.C.Rule("C09.M1", "allocation sizes are lengths of materialised data or bounded by a constant", 5)
 	x.C.Rule("C09.M2", "no growing string / slice parameter along a recursion", 1)
+	x.C.Rule("C09.M3", "unsigned 64-bit values are bounded before they are converted to a signed integer", 1)
 
 	var entries []*ssa.Function
 	for _, f := range x.P.ExportedAPI() {
@@ -148,6 +149,7 @@ func runC09(x *Ctx) {
 	loopsRule(x, fns)
 	recursionRules(x, fns, R)
 	allocations(x, fns)
+	signedConversions(x, fns)
 }
 
 // inQPClosure tells whether f is a closure passed (directly) to a go-ipld-prime qp builder, whose
@@ -697,12 +699,12 @@ func loopsRule(x *Ctx, fns []*ssa.Function) {
 		name := load.ShortName(f)
 		a := auditedLoops[name]
 		ok := unrec <= a.n
-		if unrec > 0 && ok {
-			// audited loops with a checkable progress claim
-			switch name {
-			case "pkg/policy/selector.tokenize", "pkg/policy.parseGlob":
-				ok = everyLatchAdvances(x, f, fi.Loops[0])
-			}
+		// scanning loops whose index also backs audited bounds checks: the index advances by one, or by
+		// two only when the second position exists — whatever shape the loop is recognised as
+		switch name {
+		case "pkg/policy/selector.tokenize", "pkg/policy.parseGlob":
+			x.C.Obl("C09.T1", "index-invariant:"+name, x.pos(f), "on every iteration the scan index advances by exactly one, or by two under the fact index+1 < len (so index <= len stays invariant and the audited index / slice expressions stay in range)",
+				everyLatchAdvances(x, f, fi.Loops[0]), "an iteration advances the index by another amount, or by two without the guard index+1 < len: the index can pass the end of the input")
 		}
 		x.C.Obl("C09.T1", "loops:"+name, x.pos(f), fmt.Sprintf("the %d loop(s) of %s are bounded idioms %v", len(fi.Loops), name, kinds), ok,
 			fmt.Sprintf("%d loop(s) are not a recognised bounded idiom (counted with a monotone step, range, iterator Done/Next) and only %d are audited: %s", unrec, a.n, a.reason))
@@ -775,6 +777,60 @@ func loopKind(x *Ctx, f *ssa.Function, l *paths.Loop) string {
 	return "unrecognised"
 }
 
+// signedConversions: Convert from uint / uint64 / uintptr to a signed integer type must be dominated by an
+// upper-bound fact on the unconverted value (a later test on the converted value sees a wrapped number).
+func signedConversions(x *Ctx, fns []*ssa.Function) {
+	bad, n := "", 0
+	for _, f := range fns {
+		var convs []*ssa.Convert
+		for _, b := range f.Blocks {
+			for _, in := range b.Instrs {
+				c, ok := in.(*ssa.Convert)
+				if !ok {
+					continue
+				}
+				to, ok1 := c.Type().Underlying().(*types.Basic)
+				from, ok2 := c.X.Type().Underlying().(*types.Basic)
+				if !ok1 || !ok2 || to.Info()&types.IsInteger == 0 || to.Info()&types.IsUnsigned != 0 {
+					continue
+				}
+				switch from.Kind() {
+				case types.Uint, types.Uint64, types.Uintptr:
+					if _, isConst := c.X.(*ssa.Const); !isConst {
+						convs = append(convs, c)
+					}
+				}
+			}
+		}
+		if len(convs) == 0 {
+			continue
+		}
+		ps := x.pathsQuiet(f)
+		for _, c := range convs {
+			n++
+			for _, p := range ps {
+				if !p.InBlock(c.Block()) {
+					continue
+				}
+				val := p.Term(c.X).String()
+				bounded := false
+				for _, fc := range p.Facts {
+					if fc.Atom.Op == "lt" && !fc.Pol {
+						if r := fc.Atom.Args[1].String(); r == val || r == "conv[uint64]("+val+")" {
+							bounded = true
+						}
+					}
+				}
+				if !bounded {
+					bad += x.P.Pos(c.Pos()) + ": " + c.Type().String() + "(" + c.X.Type().String() + ") in " + load.ShortName(f) + " without a dominating upper bound on the unsigned value: values above the signed maximum wrap to negative numbers (then e.g. pass a size cap and panic in make)\n"
+					break
+				}
+			}
+		}
+	}
+	x.C.Obl("C09.M3", "unsigned-to-signed", "-", fmt.Sprintf("each of the %d conversions of a non-constant uint / uint64 to a signed integer in decoder-reachable code is dominated by `value <= bound`", n), bad == "", bad)
+}
+
 // everyLatchAdvances: the index compared in the loop condition strictly increases on every latch path.
 func everyLatchAdvances(x *Ctx, f *ssa.Function, l *paths.Loop) bool {
 	iff, ok := l.Header.Instrs[len(l.Header.Instrs)-1].(*ssa.If)
@@ -800,7 +856,15 @@ func everyLatchAdvances(x *Ctx, f *ssa.Function, l *paths.Loop) bool {
 			return false
 		}
 		s := nv.String()
-		if !(s == "add("+self+",const(1))" || s == "add(add("+self+",const(1)),const(1))" || s == "add("+self+",const(2))") {
+		switch s {
+		case "add(" + self + ",const(1))":
+		case "add(add(" + self + ",const(1)),const(1))", "add(" + self + ",const(2))":
+			// skipping two positions keeps the index within the bound only if the second one exists
+			bound := paths.DetachedTerm(f, cmp.Y).String()
+			if !p.HasFact("lt(add("+self+",const(1)),"+bound+")", true) {
+				return false
+			}
+		default:
 			return false
 		}
 	}
